@@ -80,7 +80,7 @@ theorem findIP_go (T q : String) (fs : List FieldSpec) (aOf : String → List (S
 theorem findIP_q (T q : String) (fs : List FieldSpec) (ids : List String) (aOf : String → List (String × J)) :
     findIP [q] [QLown T q fs] (respA q ids aOf) [] = .ok (pointsFrom q 0 ids) := by
   have hfs : findSelection q [QLown T q fs] = some (QLown T q fs) := by
-    simp [findSelection, findSelectionSel, QLown]
+    exact findSelection_head q q [] [] _ [] _ [] q (by simp)
   rw [findIP, hfs]
   have hl : J.lookup q (respA q ids aOf) = some (.arr (ids.map (elemA aOf))) := by simp [respA, J.lookup]
   rw [hl]
